@@ -339,3 +339,17 @@ func BreakFixture() {
 	// class file whose name field does not match its file name
 	os.WriteFile(filepath.Join(d, "repo", "tasks", "c06m.yaml"), []byte("name: someothername\ncontrol:\n  mode: direct\nwants:\n  cpu: 0.1\n  memory: 16\ncommand:\n  shell: true\n  value: \"/bin/true\"\n  user: root\n"), 0o644)
 }
+
+// EnvTasksAndDetectors returns the task ids in the environment's role tree and its included detectors.
+func (w *World) EnvTasksAndDetectors(id string) (tasks []string, detectors []string) {
+	rep, err := w.Core.Rpc.GetEnvironment(context.Background(), &pb.GetEnvironmentRequest{Id: id})
+	if err != nil || rep == nil || rep.Environment == nil {
+		return nil, nil
+	}
+	for _, t := range rep.Environment.Tasks {
+		tasks = append(tasks, t.TaskId)
+	}
+	detectors = append(detectors, rep.Environment.IncludedDetectors...)
+	sort.Strings(detectors)
+	return
+}
